@@ -68,6 +68,13 @@ fn expected(entry: usize, n: c_int) -> Class {
 }
 
 static RUNS: AtomicUsize = AtomicUsize::new(0);
+static IT_STORED: AtomicUsize = AtomicUsize::new(0);
+
+fn observer(s: u32, _a: usize, _b: usize) {
+    if s == crate::site::IT_A_STORED {
+        IT_STORED.fetch_add(1, Ordering::SeqCst);
+    }
+}
 
 /// Calls entry point `e` with number `n`. Returns (class, resource check closure result):
 /// the second value lists problems with resources that must have been released on refusal.
@@ -101,9 +108,10 @@ fn call(e: usize, n: c_int, problems: &mut Vec<String>) -> Class {
                 fd_to_check = Some(raw_pipe[1]);
                 signal_hook::low_level::pipe::register_raw(n, raw_pipe[1]).map(|_| ())
             }
-            11 => Signals::new([n]).map(|s| keep.push(Box::new(s))),
-            12 => SignalsInfo::<WithRawSiginfo>::new([n]).map(|s| keep.push(Box::new(s))),
-            13 => SignalsInfo::<WithOrigin>::new([n]).map(|s| keep.push(Box::new(s))),
+            // a valid signal first: a refusal in the middle of the list must take the earlier registration back
+            11 => Signals::new([libc::SIGWINCH, n]).map(|s| keep.push(Box::new(s))),
+            12 => SignalsInfo::<WithRawSiginfo>::new([libc::SIGWINCH, n]).map(|s| keep.push(Box::new(s))),
+            13 => SignalsInfo::<WithOrigin>::new([libc::SIGWINCH, n]).map(|s| keep.push(Box::new(s))),
             14 => {
                 let s = Signals::new([libc::SIGWINCH])?;
                 let r = s.handle().add_signal(n);
@@ -113,7 +121,7 @@ fn call(e: usize, n: c_int, problems: &mut Vec<String>) -> Class {
             _ => {
                 let (r, w) = UnixStream::pair()?;
                 fd_to_check = Some(w.as_raw_fd());
-                SignalDelivery::with_pipe(r, w, SignalOnly, [n]).map(|d| keep.push(Box::new(d)))
+                SignalDelivery::with_pipe(r, w, SignalOnly, [libc::SIGWINCH, n]).map(|d| keep.push(Box::new(d)))
             }
         }
     }));
@@ -161,8 +169,8 @@ fn child(e: usize, n: c_int, context: u32, fd: i32) -> i32 {
         // and every ordinary signal): the checked entry points must still refuse the forbidden ones
         let _ = unsafe { signal_hook_registry::register_signal_unchecked(n, || ()) };
     }
-    if e == 14 {
-        // this entry point builds an instance on SIGWINCH first: let the library own that signal already
+    if (11..=15).contains(&e) {
+        // these entry points register SIGWINCH first: let the library own that signal already
         let _ = unsafe { signal_hook_registry::register(libc::SIGWINCH, || ()) };
     }
     let before: Vec<_> = (1..=64).map(crate::sig::disposition).collect();
@@ -176,6 +184,14 @@ fn child(e: usize, n: c_int, context: u32, fd: i32) -> i32 {
         }
         if crate::sig::open_fds() != fds_before {
             problems.push(format!("descriptor table changed by a refused registration: {:?} -> {:?}", fds_before, crate::sig::open_fds()));
+        }
+        // nothing of a refused iterator instance may be left in the registry
+        if (11..=15).contains(&e) {
+            let s0 = IT_STORED.load(Ordering::SeqCst);
+            unsafe { libc::raise(libc::SIGWINCH) };
+            if IT_STORED.load(Ordering::SeqCst) != s0 {
+                problems.push("an action of the refused iterator instance is still registered (it ran on a later delivery)".to_string());
+            }
         }
         // previously registered action still runs exactly once per delivery
         let w0 = witness.load(Ordering::SeqCst);
@@ -207,6 +223,8 @@ fn child(e: usize, n: c_int, context: u32, fd: i32) -> i32 {
 
 pub fn main(args: &[String]) -> i32 {
     let seed = arg_u64(args, "--seed", 1);
+    crate::director::install();
+    crate::director::set_observer(Some(observer));
     let full = crate::has_flag(args, "--full");
     let only_pipe = crate::has_flag(args, "--only-pipe");
     let t0 = crate::now_ms();
@@ -257,7 +275,7 @@ pub fn main(args: &[String]) -> i32 {
                     bad.push((format!("outcome-class:{}", ename), format!("{}: outcome {:?}, expected {:?}", label, got, want)));
                 }
                 for l in res.out.lines().filter(|l| l.starts_with("BAD ")) {
-                    let s = if l.contains("dispositions") { "dispositions-changed" } else if l.contains("descriptor") { "descriptor-left-open" }
+                    let s = if l.contains("still registered") { "refused-instance-left-registered" } else if l.contains("dispositions") { "dispositions-changed" } else if l.contains("descriptor") { "descriptor-left-open" }
                         else if l.contains("reference") { "captured-state-not-released" } else if l.contains("previously") { "registry-disturbed" } else { "library-unusable-after-refusal" };
                     bad.push((format!("{}:{}", s, ename), format!("{} || {}", &l[4..], label)));
                 }
